@@ -68,10 +68,17 @@ class MemWriter:
         self.conn = conn
         self._closed = False
 
+    #: optional observer of the amount of output (C06 credits its step
+    #: budget per byte written: "bounded" is relative to what is produced)
+    on_bytes: Any = None
+
     def write(self, data: bytes) -> None:
         if self._closed:
             self.conn.write_after_close += 1
             return
+        hook = MemWriter.on_bytes
+        if hook is not None:
+            hook(len(data))
         self.conn._on_write(bytes(data))
 
     def writelines(self, lines: Any) -> None:
